@@ -319,6 +319,35 @@ pub fn sweep(out: &mut dyn Write, seed: u64, o: &Opts) {
             let mask = match r2.below(4) { 0 | 1 => default_mask(), 2 => tight_single(&mut r2, d.len()), _ => (1u64 << 48) - 1 };
             emit_runs(d, if modes == 0 { 63 } else { modes }, mask, out, &mut hist);
         }
+        // every ordered pair of classes under the mode subsets that force a direct transition between two
+        // non-ASCII modes (no ASCII detour available), and C40/Text-friendly runs that end in one character
+        // which needs a shift or an upper shift, in symbols that are exactly full
+        let mut r3 = Rng::new(seed ^ 0x5052_5332);
+        for modes in [6u8, 7, 14, 15, 38, 39, 62, 63, 12, 10, 24, 48, 33, 3, 5, 9, 17] {
+            for a in 0..classes.len() {
+                for b in 0..classes.len() {
+                    if a == b { continue; }
+                    for (la, lb) in [(9usize, 9usize), (4, 12)] {
+                        let mut d = run(a, la, 0);
+                        d.extend(run(b, lb, 3));
+                        emit_runs(d, modes, default_mask(), out, &mut hist);
+                    }
+                }
+            }
+        }
+        let n_tail = if o.n_random >= 100000 { 8000 } else { 1500 };
+        for _ in 0..n_tail {
+            let cl = *r3.pick(&[0usize, 1, 2, 3, 5]);
+            let len = 2 + r3.below(14);
+            let mut d = run(cl, len, r3.below(5));
+            if r3.chance(1, 3) {
+                d.extend(run(*r3.pick(&[0usize, 1, 2]), 1 + r3.below(5), 0));
+            }
+            d.push(*r3.pick(&[0x80u8, 0xC1, 0xE4, 0xFF, 0x7F, b'!', b'_', b'`', 0x1D, 0x00]));
+            let modes = *r3.pick(&[2u8, 4, 6, 22, 62, 63, 3, 5, 18, 20]);
+            let mask = if r3.chance(2, 3) { tight_single(&mut r3, d.len()) } else { default_mask() };
+            emit_runs(d, modes, mask, out, &mut hist);
+        }
     }
     for (k, v) in &hist {
         writeln!(out, "# {} {}", k, v).unwrap();
